@@ -5,6 +5,8 @@
 package cache
 
 import (
+	"github.com/facette/natsort"
+	"sort"
 	"bytes"
 	"context"
 	"fmt"
@@ -202,7 +204,53 @@ func TestVerifBounded_C19_JumpHash(t *testing.T) {
 			}
 		}
 	}
-	fmt.Printf("BOUNDED-CASES name=C19_JumpHash n=%d distinct=%d bound=%d keys (16 boundary + random) x 1..70 servers: in range, deterministic, appending a server moves a key only to it; 2000 keys through the selector with 4 servers\n", cases, cases, nkeys)
+	// every input order of small server lists whose natural order differs from the byte order: all clients agree, and
+	// the placement is the one of the naturally sorted list
+	for _, list := range [][]string{
+		{"127.0.0.1:2", "127.0.0.1:10", "127.0.0.1:9"},
+		{"10.0.0.2:11211", "10.0.0.10:11211", "10.0.0.1:11211"},
+		{"127.0.0.1:1", "127.0.0.1:2", "127.0.0.1:10", "127.0.0.1:100"},
+	} {
+		natural := append([]string{}, list...)
+		natsort.Sort(natural)
+		perm := append([]string{}, list...)
+		sort.Strings(perm)
+		var permute func(k int)
+		permute = func(k int) {
+			if k == len(perm) {
+				cases++
+				s2 := MemcachedJumpHashSelector{}
+				in := append([]string{}, perm...)
+				if err := s2.SetServers(in...); err != nil {
+					t.Fatal(err)
+				}
+				if fmt.Sprint(in) != fmt.Sprint(perm) {
+					fails++
+					fmt.Printf("BOUNDED-VIOLATION case=c19-pick-order:%v SetServers reordered the caller's slice to %v\n", perm, in)
+				}
+				for i := 0; i < 40; i++ {
+					k := fmt.Sprintf("key-%d", i)
+					a, err := s2.PickServer(k)
+					want := natural[jumpHash(xxhash.Sum64String(k), len(natural))]
+					if err != nil || a.String() != want {
+						fails++
+						if fails <= 5 {
+							fmt.Printf("BOUNDED-VIOLATION case=c19-pick-order:%v:%s picked %v err %v, expected %s (placement must depend on the naturally sorted list %v only)\n", perm, k, a, err, want, natural)
+						}
+						break
+					}
+				}
+				return
+			}
+			for i := k; i < len(perm); i++ {
+				perm[k], perm[i] = perm[i], perm[k]
+				permute(k + 1)
+				perm[k], perm[i] = perm[i], perm[k]
+			}
+		}
+		permute(0)
+	}
+	fmt.Printf("BOUNDED-CASES name=C19_JumpHash n=%d distinct=%d bound=%d keys (16 boundary + random) x 1..70 servers: in range, deterministic, appending a server moves a key only to it; 2000 keys through the selector with 4 servers; every input order of 3 small lists whose natural order differs from byte order\n", cases, cases, nkeys)
 	if fails > 0 {
 		t.Fatalf("%d mismatches", fails)
 	}
